@@ -79,6 +79,7 @@ type State struct {
 	trace     []string
 	fresh     map[string]bool // texts of refs allocated in this activation
 	calls     []string        // abstract call log (effects)
+	stops     []*stopPoint    // pending join blocks (state merging)
 }
 
 func (s *State) top() *Frame { return s.frames[len(s.frames)-1] }
@@ -164,6 +165,9 @@ type Exec struct {
 	topMods     []modTarget
 	autoHeader  []autoMark
 	boundedNotes map[string]int
+	inQuant      int
+	merged       int
+	noMerge      bool
 }
 
 func NewExec(w *World) *Exec {
@@ -236,9 +240,20 @@ func (x *Exec) assume(st *State, t *Term, label string) {
 	if t.isTrue() {
 		return
 	}
+	if x.inQuant > 0 {
+		// side facts (type ranges, definitions) mentioning a bound variable cannot be asserted
+		// at top level; dropping an assumption is always sound
+		if label != "quant-ok" {
+			return
+		}
+	}
 	e := PCEntry{Kind: 1, T: t, Label: label}
 	st.pc = st.pc.Push(e)
-	x.sess.Add(e)
+	// quantified facts are kept for the final (raced) discharge only: in the exploration session
+	// they make every satisfiable feasibility query time out. Omitting assumptions there is sound.
+	if !strings.Contains(t.s, "(forall ") && !strings.Contains(t.s, "(exists ") {
+		x.sess.Add(e)
+	}
 }
 
 // freshTyped makes a fresh symbolic value of Go type t (well-typed: ranges assumed).
@@ -351,9 +366,20 @@ func (x *Exec) assumeSliceWF(st *State, v *Val) {
 	st.assumedR[key] = true
 	z := IntLit(0)
 	mx := IntLitBig(maxAddr)
-	x.assume(st, And(Ge(v.Arr, z), Lt(v.Arr, Add(st.allocBase, IntLit(st.allocK))),
-		Ge(v.Off, z), Ge(v.Len, z), Le(v.Len, v.Cap), Le(Add(v.Off, v.Cap), mx),
-		Implies(Eq(v.Arr, z), And(Eq(v.Len, z), Eq(v.Cap, z)))), "slice-wf")
+	// the terms carry interval annotations that this very assumption justifies: build the facts
+	// from annotation-free copies so that they are not simplified away
+	raw := func(t *Term) *Term {
+		if t.lit != nil {
+			return t
+		}
+		c := *t
+		c.lo, c.hi = nil, nil
+		return &c
+	}
+	arr, off, ln, cp := raw(v.Arr), raw(v.Off), raw(v.Len), raw(v.Cap)
+	x.assume(st, And(Ge(arr, z), Lt(arr, Add(st.allocBase, IntLit(st.allocK))),
+		Ge(off, z), Ge(ln, z), Le(ln, cp), Le(Add(off, cp), mx),
+		Implies(Eq(arr, z), And(Eq(ln, z), Eq(cp, z)))), "slice-wf")
 }
 
 // alloc returns a fresh non-nil object reference distinct from every earlier one.
@@ -433,6 +459,13 @@ func (x *Exec) heapIn(st *State, h HeapSnap, key, leafSort string) *Term {
 
 func (x *Exec) heapGet(st *State, key, leafSort string) *Term {
 	if t, ok := st.heap[key]; ok {
+		if len(t.s) > 240 && x.inQuant == 0 {
+			// name large heap terms so that later updates do not duplicate them
+			c := x.freshConst(st, "hp", t.sort)
+			x.assume(st, app(SBool, "=", c, t), "def-heap")
+			st.heap[key] = c
+			return c
+		}
 		return t
 	}
 	t := x.epochInit(st, st.epoch, key, leafSort)
@@ -503,7 +536,7 @@ func (x *Exec) store(st *State, l *Loc, v *Val) {
 
 // bind names a large term with a fresh constant to keep formulas small.
 func (x *Exec) bind(st *State, t *Term, hint string) *Term {
-	if len(t.s) <= 96 || t.lit != nil {
+	if len(t.s) <= 96 || t.lit != nil || x.inQuant > 0 {
 		return t
 	}
 	c := x.freshConst(st, hint, t.sort)
